@@ -1,4 +1,5 @@
 import GoSQLXModel.Model.Pool
+import GoSQLXModel.Proofs.PoolType
 import GoSQLXModel.Gen.AstTables
 import GoSQLXModel.Gen.Structure
 /-!
@@ -16,6 +17,10 @@ content before release; all histories of put/get.
 * `gen_pool_ok` re-checks, on the table extracted from today's pool.go, that no
   (site, field) is left uncleared.  It is a kernel computation over the regenerated table.
 * `pooled_nodes_clean` instantiates the generic theorem at the extracted table.
+* `pooled_nodes_typed`, `pool_entry_handed_out_once`, `pool_growth` (Proofs/PoolType.lean) — over every history the
+  nodes handed out are one per `get`, each of the type asked for (with `gen_pool_put_matches_get`: no type confusion
+  on reuse); taking an entry removes exactly that entry, so no entry reaches two callers; the pool grows by at most
+  one entry per release.
 -/
 namespace GoSQLXModel.Props.C09
 open GoSQLXModel GoSQLXModel.Pool
@@ -35,6 +40,17 @@ theorem pooled_nodes_clean (ops : List Op) (st : State) (hi : Inv st)
     (hw : ∀ site n, Op.put site n ∈ ops → WellTyped Gen.astSchema n) :
     ∀ n ∈ (run Gen.astSchema Gen.poolSites st ops).2, n.Clean :=
   (clean_invariant gen_covers ops st hi hw).2
+
+/-- over every history, from every pool content: one node per `get`, of the type asked for -/
+theorem pooled_nodes_typed (ops : List Op) (st : State) :
+    (run Gen.astSchema Gen.poolSites st ops).2.map (·.ty) = askedTypes ops := run_types _ _ ops st
+
+/-- a taken entry leaves the pool: what remains, with it, is a rearrangement of what was there -/
+theorem pool_entry_handed_out_once {ty : String} {st rest : State} {n : PNode} (h : takeTy ty st = some (n, rest)) :
+    n.ty = ty ∧ (n :: rest).Perm st := ⟨takeTy_ty h, takeTy_perm h⟩
+
+theorem pool_growth (ops : List Op) (st : State) :
+    (run Gen.astSchema Gen.poolSites st ops).1.length ≤ st.length + puts ops := run_length_le _ _ ops st
 
 /-- non-vacuity: a fully dirty SelectStatement released through PutSelectStatement and taken again is clean,
     and the table really contains that site -/
